@@ -817,7 +817,8 @@ func (ex *Exec) evCall(x *SCall, env *Env) Val {
 		}
 		h := ex.getHeap(st, "$typeof", ArrS(SInt, SInt))
 		xa := arg(0).T
-		return Val{T: And(Gt(xa, IntLit(0)), Lt(xa, ex.getHeap(st, "$nextref", SInt)), Eq(Select(h, xa), IntLit(int64(ex.V.nameID("type:"+structName(t)))))), Ty: tyBool}
+		// (x < $nextref is implied: unallocated references carry tag 0)
+		return Val{T: And(Gt(xa, IntLit(0)), Eq(Select(h, xa), IntLit(int64(ex.V.nameID("type:"+structName(t)))))), Ty: tyBool}
 	case "allocated":
 		a := arg(0)
 		t := a.T
@@ -949,6 +950,24 @@ func (ex *Exec) evCall(x *SCall, env *Env) Val {
 		}
 		h := ex.getHeap(st, heapArrName(a.Ty.Underlying().(*types.Slice).Elem()), ArrS(SInt, ArrS(SInt, es)))
 		return Val{T: MkSeq(ex.D.Fn("seqshift", ArrS(SInt, SInt), Select(h, SlBase(a.T)), SlOff(a.T)), SlLen(a.T)), Ty: tySeq}
+	case "impl":
+		// impl(x, "pkg.Type"): the *pkg.Type held by interface value x (impl directive)
+		k, ok := x.Args[1].(*SStrLit)
+		if !ok {
+			ex.specFail("impl: second argument must be a type name string")
+		}
+		var t types.Type
+		if i := strings.Index(k.Val, "."); i > 0 {
+			if tp := ex.V.tpkgs[k.Val[:i]]; tp != nil {
+				t = ex.V.lookupType(k.Val[i+1:], tp)
+			}
+		} else {
+			t = ex.V.lookupType(k.Val, env.pkgOr(ex.pkg))
+		}
+		if t == nil {
+			ex.specFail("impl: unknown type %s", k.Val)
+		}
+		return ex.unwrapIface(arg(0), types.NewPointer(t))
 	case "sidset", "sidsetn":
 		// the set of string identities of the elements of a []string (or of
 		// its first n elements): sidsetf(row, lo, hi) = { sid(row[j]) | lo <= j < hi }
@@ -1016,10 +1035,14 @@ func (ex *Exec) evCall(x *SCall, env *Env) Val {
 	if len(sf.Params) != len(x.Args) {
 		ex.specFail("%s: expected %d arguments, got %d", x.Fn, len(sf.Params), len(x.Args))
 	}
+	defPkg := env.pkgOr(ex.pkg)
+	if tp := ex.V.tpkgs[sf.Pkg]; tp != nil && ex.V.isOurPkg(tp) {
+		defPkg = tp // names in the declaration and body are those of the defining package
+	}
 	var args []Val
 	for i := range x.Args {
 		a := arg(i)
-		pt := ex.V.specType(sf.Params[i].Type, env.pkgOr(ex.pkg))
+		pt := ex.V.specType(sf.Params[i].Type, defPkg)
 		if a.Ty == tyRef && sortOf(pt) == SSlice {
 			a = Val{T: NilSlice, Ty: pt}
 		}
@@ -1029,7 +1052,7 @@ func (ex *Exec) evCall(x *SCall, env *Env) Val {
 		a.Ty = pt
 		args = append(args, a)
 	}
-	rt := ex.V.specType(sf.Ret, env.pkgOr(ex.pkg))
+	rt := ex.V.specType(sf.Ret, defPkg)
 	if sf.Body == nil {
 		var ts []*Term
 		for _, a := range args {
@@ -1042,7 +1065,7 @@ func (ex *Exec) evCall(x *SCall, env *Env) Val {
 	if env.depth > 40 {
 		ex.specFail("spec function expansion too deep (recursion?) in %s", x.Fn)
 	}
-	n := &Env{ex: ex, st: env.st, old: env.old, vars: map[string]Val{}, callee: true, inOld: env.inOld, li: env.li, pkg: env.pkgOr(ex.pkg), depth: env.depth + 1}
+	n := &Env{ex: ex, st: env.st, old: env.old, vars: map[string]Val{}, callee: true, inOld: env.inOld, li: env.li, pkg: defPkg, depth: env.depth + 1}
 	for i, p := range sf.Params {
 		n.vars[p.Name] = args[i]
 	}
